@@ -21,6 +21,7 @@ from gnpy.tools.default_edfa_config import DEFAULT_EXTRA_CONFIG
 from gnpy.yang.precision_dict import PRECISION_DICT
 
 from vf.gen import common as G, services as S, eqpt as GE
+from vf.ref.yangdigits import declared_digits
 from vf.props import _prop_common as P
 
 ID = 'C18'
@@ -48,6 +49,11 @@ def plan(tier, seed):
 
 
 def digits_for(key):
+    """Declared fraction digits of a leaf: from the YANG models; the conversion table only for names the models
+    do not declare as decimals."""
+    d = declared_digits()
+    if key in d:
+        return d[key]
     return PRECISION_DICT.get(key, 2)
 
 
@@ -215,8 +221,14 @@ def gen_topology_doc(rng):
         for k in ('length', 'att_in', 'con_in', 'con_out', 'loss'):
             if isinstance(p.get(k), (int, float)) and rng.random() < 0.5:
                 p[k] = noisy(rng, p[k], k)
-        if isinstance(p.get('loss_coef'), (int, float)) and rng.random() < 0.5:
-            p['loss_coef'] = noisy(rng, p['loss_coef'], 'loss_coef')
+        if isinstance(p.get('loss_coef'), (int, float)):
+            # use all the declared digits
+            p['loss_coef'] = round(p['loss_coef'] + rng.choice([0.001, 0.0034, 0.000571, 0.012345]), 6)
+            if rng.random() < 0.5:
+                p['loss_coef'] = noisy(rng, p['loss_coef'], 'loss_coef')
+        for k, step in (('length', 0.000123), ('att_in', 0.01), ('con_in', 0.03), ('con_out', 0.07)):
+            if isinstance(p.get(k), (int, float)) and rng.random() < 0.5:
+                p[k] = round(p[k] + step, digits_for(k))
         for k in ('per_degree_pch_out_db', 'per_degree_psd_out_mWperGHz', 'per_degree_psd_out_mWperSlotWidth'):
             if k in p:
                 p[k] = {d: noisy(rng, v, k) for d, v in p[k].items()}
